@@ -6,7 +6,7 @@ D=$1
 mkdir -p "$D/harness/cmd/vcheck" "$D/harness/checks" "$D/evidence" "$D/replay"
 cp /verif/run.sh /verif/known_findings.json "$D/"
 cp -r /verif/harness/vk "$D/harness/"
-[ -d /verif/harness/gen ] && cp -r /verif/harness/gen /verif/harness/ref /verif/harness/drive "$D/harness/" 2>/dev/null || true
+cp -r /verif/harness/gen /verif/harness/ref /verif/harness/drive "$D/harness/"
 cp /verif/harness/go.mod "$D/harness/"
 cp /verif/harness/cmd/vcheck/main.go "$D/harness/cmd/vcheck/"
 echo "$D ready"
